@@ -126,6 +126,30 @@ const ROOK_MOB: i32 = 3;
 const QUEEN_MOB: f32 = 1.5;*/
 
 
+#[cfg(jence_verif)]
+pub fn verif_consts() {
+    fn row<T: std::fmt::LowerHex>(name: &str, v: &[T]) {
+        let s: Vec<String> = v.iter().map(|x| format!("{:x}", x)).collect();
+        println!("{} {}", name, s.join(" "));
+    }
+    fn rowd(name: &str, v: &[i32]) {
+        let s: Vec<String> = v.iter().map(|x| format!("{}", x)).collect();
+        println!("{} {}", name, s.join(" "));
+    }
+    row("FILE_MASKS", &FILE_MASKS);
+    row("RANK_MASKS", &RANK_MASKS);
+    row("ISOLATED_MASKS", &ISOLATED_MASKS);
+    row("WHITE_PASSED_PAWN_MASKS", &WHITE_PASSED_PAWN_MASKS);
+    row("BLACK_PASSED_PAWN_MASKS", &BLACK_PASSED_PAWN_MASKS);
+    rowd("PASSED_WHITE_PAWN_BONUS", &PASSED_WHITE_PAWN_BONUS);
+    rowd("PASSED_BLACK_PAWN_BONUS", &PASSED_BLACK_PAWN_BONUS);
+    println!("STACKED_PAWN_PENALTY {}", STACKED_PAWN_PENALTY);
+    println!("ISOLATED_PAWN_PENALTY {}", ISOLATED_PAWN_PENALTY);
+    println!("SEMI_OPEN_FILE_SCORE {}", SEMI_OPEN_FILE_SCORE);
+    println!("OPEN_FILE_SCORE {}", OPEN_FILE_SCORE);
+    println!("PROTECTED_KING_BONUS {}", PROTECTED_KING_BONUS);
+}
+
 pub fn evaluate(game: &Game) -> i32 {
     let mut score: i32 = 0;
 
